@@ -166,6 +166,81 @@ def set_cli_args(argument_parser):
 '''.format(stmt=stmt, typ=typ, expr=expr, desc=desc), desc, typ
 
 
+WIDGET = '''"""Models (module-level code below must never run during analysis)"""
+open({S!r}, "w").close()
+Base = object
+Column = Integer = String = lambda *a, **kw: None
+
+
+class Widget(Base):
+    """A widget"""
+
+    __tablename__ = "widget"
+
+    widget_id = Column(Integer, primary_key=True)
+    name = Column(String)
+'''
+NODE = '''from sqlalchemy import Column, ForeignKey, Integer
+from {mod} import Widget
+
+
+class Node(Base):
+    """A node"""
+
+    __tablename__ = "node"
+
+    node_id = Column(Integer, primary_key=True)
+    primary_widget = Column(Widget, ForeignKey("Widget"))
+'''
+
+
+def run_phase2(case, work, sentinel):
+    """gen --emit sqlalchemy --phase 2 over a models file whose foreign key names a class imported from another module of the project"""
+    from harness import effects
+    import cdd.__main__ as cli
+
+    payload = case["payload"]
+    project = os.path.join(work, "project")
+    os.makedirs(project)
+    mod = "verif_sentinel_models_{}".format(os.path.basename(work).replace("-", "_"))
+    if payload == "benign":                      # a plain module file
+        with open(os.path.join(project, mod + ".py"), "w") as f:
+            f.write(WIDGET.replace("{S!r}", repr(sentinel + "_mod")))
+    else:                                        # a package: its __init__ holds the side effect (and, per payload, where the class lives)
+        os.makedirs(os.path.join(project, mod))
+        with open(os.path.join(project, mod, "__init__.py"), "w") as f:
+            f.write(WIDGET.replace("{S!r}", repr(sentinel + "_mod")) if payload != "import_stmt"
+                    else "open({!r}, 'w').close()\nfrom .widget import Widget\n".format(sentinel + "_mod"))
+        if payload == "import_stmt":
+            with open(os.path.join(project, mod, "widget.py"), "w") as f:
+                f.write(WIDGET.replace("{S!r}", repr(sentinel + "_mod2")))
+    node_py = os.path.join(project, "node.py")
+    with open(node_py, "w") as f:
+        f.write(NODE.format(mod=mod))
+    rec = effects.Recorder(outputs=[node_py], inputs=[node_py], sentinels=[mod, mod + ".widget"], analysed_modules=["node"])
+    sys.path.insert(0, project)
+    errors = []
+    try:
+        with effects.recording(rec):
+            try:
+                with contextlib.redirect_stdout(io.StringIO()), contextlib.redirect_stderr(io.StringIO()):
+                    cli.main(["gen", "--name-tpl", "{name}", "--input-mapping", node_py, "--parse", "sqlalchemy", "--emit", "sqlalchemy",
+                              "-o", node_py, "--phase", "2"])
+            except SystemExit:
+                pass
+            except Exception as e:  # noqa
+                errors.append(type(e).__name__)
+    finally:
+        sys.path.remove(project)
+        for m in list(sys.modules):
+            if m == mod or m.startswith(mod + ".") or m == "node":
+                sys.modules.pop(m, None)
+    sentinels = sorted(f for f in os.listdir(work) if f.startswith("SENTINEL"))
+    res = {"case": case, "events": rec.events, "detail": rec.detail, "sentinels": sentinels, "errors": errors}
+    shutil.rmtree(work, ignore_errors=True)
+    return res
+
+
 def run_case(args):
     case, workroot = args
     api, slot, payload = case["api"], case["slot"], case["payload"]
@@ -177,6 +252,10 @@ def run_case(args):
     os.makedirs(moddir)
     with open(os.path.join(moddir, "verif_sentinel_mod.py"), "w") as f:
         f.write("open({!r}, 'w').close()\n".format(sentinel + "_mod"))
+    if (api == "gen_phase2") != (slot == "import_from"):
+        return {"case": case, "skip": "the import_from slot exists only in the second SQLAlchemy phase of gen (and that phase reads nothing else)"}
+    if api == "gen_phase2":
+        return run_phase2(case, work, sentinel)
     if api in ("route_parse", "openapi_bulk"):
         src, desc, typ = build_routes(slot, payload, sentinel), "", ""
     elif slot == "yaml_block":
